@@ -20,6 +20,8 @@ verus! {
 //@ include spec/wasm_resp.rs
 //@ include spec/wasm_exec.rs
 //@ include spec/wasm_call.rs
+//@ include spec/isolation.rs
+//@ include spec/isolation_inst.rs
 //@ include_stubs contracts/transactional_only.rs
 //@ include_stubs contracts/prefixed_ns.rs
 //@ include_stubs contracts/prefixed_mod.rs
